@@ -24,6 +24,7 @@
 import ControlModel.Gen.ServentFacts
 import ControlModel.Proofs.CmdQueue
 import ControlModel.Proofs.CmdHandover
+import ControlModel.Proofs.CmdLock
 
 open CmdQueue
 
@@ -532,6 +533,113 @@ theorem C12_handover_ok (cmds : List Cmd) (h : wfCfg cmds = true) (qs : List Nat
     handoverOk qs (qtrace cmds (queueOf qs) qinit sched) = true :=
   handover_trace h qs _ sched qinit [] (qinv_init cmds _) traceInv_init
 
+/-! ## the servent mutex and the two leave windows of `RunCommand`
+
+`lrun cfg cmds qof linit ls` (Model/CmdLock): the queue layer refined by the servent
+mutex. "The caller stops listening on `call.Done`" (`expire i`: its send returned an
+error, or its timer fired) and "the caller removes its entry and returns"
+(`unregister i`, under the mutex) are two steps, so a `deliver r` can fall in between:
+the entry is still pending, nobody will ever receive. `codeLock` = the code (the mutex is
+released before the hand-over on `call.Done`), `deferLock` = `defer s.mu.Unlock()`. -/
+
+/-- What `ProcessResponse` and `RunCommand` do with `s.mu`, and where they can block, as the
+    source says NOW: `ProcessResponse` unlocks BEFORE its blocking send on `call.Done` (no
+    `defer s.mu.Unlock()` spanning it); `RunCommand` calls the send function and selects
+    outside its three critical sections; no blocking operation of the Servent sits inside a
+    critical section of `s.mu` — the lock layer's `codeLock`. -/
+theorem C12_process_response_lock_is_code :
+    Gen.C12.processResponseLock = ["s.mu.Lock()", "s.mu.Unlock()", "send call.Done <- empty{} locked=false"] ∧
+    Gen.C12.runCommandLock =
+      ["s.mu.Lock()", "s.mu.Unlock()", "call s.SendFunc locked=false", "s.mu.Lock()", "s.mu.Unlock()",
+       "select locked=false", "s.mu.Lock()", "s.mu.Unlock()"] ∧
+    Gen.C12.lockSpansBlocking = codeLock.lockSpansSend := by decide
+
+/-- The lock layer only removes behaviours and splits steps: its states project to states
+    the queue layer reaches and to states the servent/commit layer reaches, under some
+    schedule — for either setting of the switch. Every theorem above applies to them. -/
+theorem C12_lock_refines (cfg : LockCfg) (cmds : List Cmd) (qof : Nat → Nat) (ls : List LStep) :
+    ∃ qs sched, (lrun cfg cmds qof linit ls).q = qrun cmds qof qinit qs ∧
+      (lrun cfg cmds qof linit ls).q.base = run cmds init sched := by
+  obtain ⟨qs, hqs⟩ := lrun_refines cfg cmds qof ls linit
+  obtain ⟨sched, hs⟩ := base_reachable cmds qof qs qinit
+  exact ⟨qs, sched, hqs, by rw [hqs]; exact hs⟩
+
+/-- The servent mutex is free whenever anybody is blocked: with the unlock before the
+    hand-over, every critical section is one atomic step, so between steps — in particular
+    while a `ProcessResponse` is parked in its hand-over, for however long — nobody holds it. -/
+theorem C12_lock_free_at_rest (cmds : List Cmd) (qof : Nat → Nat) (ls : List LStep) :
+    (lrun codeLock cmds qof linit ls).mu = none :=
+  lmu_run_none rfl ls linit rfl
+
+/-- Exactly-once, liveness half, over the REFINED steps: from any reachable state of the
+    lock layer — callers inside their leave windows, replies that arrived there and are
+    parked for ever, anything in flight — a command that has been dequeued and not answered
+    still gets its callback by steps nobody can disable (every caller: register, send, leave,
+    unregister; then complete). A reply that meets a caller on its way out wedges nothing. -/
+theorem C12_can_always_complete_in_windows (cmds : List Cmd) (h : wfCfg cmds = true) (qof : Nat → Nat)
+    (ls : List LStep) (c : Nat) (cmd : Cmd) (hc : cmds[c]? = some cmd)
+    (hst : (lrun codeLock cmds qof linit ls).q.base.started c = true)
+    (hnc : (lrun codeLock cmds qof linit ls).q.base.completed c = false) :
+    ∃ more res, (c, res) ∈ (lrun codeLock cmds qof linit (ls ++ more)).q.base.callbacks := by
+  have inv := linv_run h ls linit (linv_init codeLock cmds qof)
+  obtain ⟨res, hres⟩ := lcan_complete h rfl inv hc hst hnc
+  exact ⟨_, res, by rw [lrun_append]; exact hres⟩
+
+/-- A reply that arrives in a leave window is handed to nobody — and fails nobody. In any
+    reachable state in which caller `i` has stopped listening while its entry is still
+    pending, `deliver r` for its key: takes the entry; `ProcessResponse(r)` is parked in its
+    hand-over for ever (`leaked`, in every continuation) holding no mutex; the caller's state is
+    untouched, and its `unregister` returns exactly what it returns without the reply — the
+    send error or "timed out". (A goroutine leak per such reply; harmless to every command.) -/
+theorem C12_window_reply_leaks_not_fails (cmds : List Cmd) (h : wfCfg cmds = true) (qof : Nat → Nat)
+    (ls later : List LStep) (i : Ref) (r : Resp)
+    (hl : (lrun codeLock cmds qof linit ls).left i = true)
+    (hp : (lrun codeLock cmds qof linit ls).q.base.pending r.key = some i) :
+    let s := lrun codeLock cmds qof linit ls
+    let s1 := lstep codeLock cmds qof s (.q (.base (.deliver r)))
+    s1.mu = none ∧ (s1.q.base.call i).pc = (s.q.base.call i).pc ∧ s1.q.base.pending r.key = none ∧
+      r ∈ (lrun codeLock cmds qof s1 later).leaked ∧
+      ∃ o, (o = .sendErr ∨ o = .timeoutErr) ∧
+        ((lstep codeLock cmds qof s1 (.unregister i)).q.base.call i).pc = .finished o ∧
+        ((lstep codeLock cmds qof s (.unregister i)).q.base.call i).pc = .finished o := by
+  have inv := linv_run h ls linit (linv_init codeLock cmds qof)
+  obtain ⟨h1, h2, _, h4, _, h6, h7⟩ :=
+    window_reply (cfg := codeLock) (cmds := cmds) (qof := qof) rfl inv.Q.I1 (inv.MU rfl) hl hp
+  exact ⟨h2, h4, h6, leaked_run later _ r h1, h7⟩
+
+/-- Never someone else's, in the refined layer too: whatever happens in the windows — other
+    callers leaving, their late replies being parked — caller `i`'s state is a function of
+    its own steps and of the responses with its own key in the projected schedule. -/
+theorem C12_window_others_irrelevant (cmds : List Cmd) (h : wfCfg cmds = true) (qof : Nat → Nat) (ls : List LStep)
+    (i : Ref) (k : CallId) (hk : keyOf? cmds i = some k) :
+    ∃ sched, (lrun codeLock cmds qof linit ls).q.base = run cmds init sched ∧
+      (lrun codeLock cmds qof linit ls).q.base.call i = (run cmds init (sched.filter (concerns cmds i))).call i := by
+  obtain ⟨_, sched, _, hs⟩ := C12_lock_refines codeLock cmds qof ls
+  exact ⟨sched, hs, by rw [hs]; exact C12_others_irrelevant cmds h sched i k hk⟩
+
+/-- No goroutine dump ever finds a command wedged: what an observer looking for wedged
+    commands records in ANY execution of the lock layer is nothing — the clause `neverStuck`
+    of Spec.C12 that the driver evaluates on the real code's trace. -/
+theorem C12_never_stuck (cmds : List Cmd) (h : wfCfg cmds = true) (qof : Nat → Nat) (ls : List LStep) :
+    stuckTrace codeLock cmds qof linit ls = [] ∧ neverStuck (stuckTrace codeLock cmds qof linit ls) = true := by
+  have this : stuckTrace codeLock cmds qof linit ls = [] :=
+    stuckTrace_nil h rfl ls linit (linv_init codeLock cmds qof)
+  exact ⟨this, by rw [this]; rfl⟩
+
+/-- … and all of this NEEDS the unlock before the hand-over. With `defer s.mu.Unlock()` in
+    `ProcessResponse` (`deferLock`): command 0's target answers although the send to it is
+    reported as failed — the reply finds the entry still pending, its `ProcessResponse` holds
+    the mutex waiting for a receiver that is on its way out and waits for the mutex. The dump
+    shows commands 0 AND 1 (another queue, another target) wedged, and in NO continuation does
+    either of them ever get a callback. -/
+theorem C12_lock_spanning_send_wedges :
+    stuckTrace deferLock wedgeCmds id linit (wedgeSched ++ [.look 0, .look 1]) = [.stuck 0, .stuck 1] ∧
+    ∀ more, (lrun deferLock wedgeCmds id linit (wedgeSched ++ more)).q.base.callbacks = [] := by
+  refine ⟨by decide, ?_⟩
+  intro more
+  rw [lrun_append]
+  exact (wedged_run more _ wedged_witness).CB
+
 /-! ## non-vacuity
 
 Two commands (ids 7 and 9) over targets {1,2,3} / {1}: while command 0 is in
@@ -659,3 +767,48 @@ example : handoverOk [0, 0, 0]
 /-- … which is fine on another queue -/
 example : handoverOk [0, 0, 1]
     [.send 0 2 false 0 0, .send 2 3 true 0 0, .listen 0, .done 0 (.single (.synth 100 .send))] = true := by decide
+
+
+/-! The leave windows (one command, id 100, target 2; lock layer, `codeLock`). The send to
+target 2 is reported as failed AFTER the target answered: the reply (tag 1) takes the entry
+while the caller is on its way out and is parked; the caller returns its send error, the
+command completes; a later look finds nothing wedged. -/
+
+def C12_demo5 : List Cmd := [{ id := 100, targets := [2] }]
+
+def C12_demo5_sched : List LStep :=
+  [.q (.base (.start 0)), .q (.base (.register (0, 0))), .expire (0, 0), .q (.base (.deliver ⟨100, 2, 1, false⟩)),
+   .look 0, .unregister (0, 0), .q (.base (.complete 0)), .look 0]
+
+example : (lrun codeLock C12_demo5 id linit C12_demo5_sched).q.base.callbacks = [(0, .single (.synth 100 .send))] ∧
+    (lrun codeLock C12_demo5 id linit C12_demo5_sched).leaked = [⟨100, 2, 1, false⟩] ∧
+    stuckTrace codeLock C12_demo5 id linit C12_demo5_sched = [] := by decide
+
+/-- the same schedule with the mutex held across the hand-over: nothing completes, both looks find command 0 wedged -/
+example : (lrun deferLock C12_demo5 id linit C12_demo5_sched).q.base.callbacks = [] ∧
+    stuckTrace deferLock C12_demo5 id linit C12_demo5_sched = [.stuck 0, .stuck 0] := by decide
+
+/-- the other window: the timer fires (`expire` from `waiting`), the reply arrives, the caller returns "timed out" -/
+example : (lrun codeLock C12_demo5 id linit
+      [.q (.base (.start 0)), .q (.base (.register (0, 0))), .q (.base (.sendOk (0, 0))), .expire (0, 0),
+       .q (.base (.deliver ⟨100, 2, 1, false⟩)), .unregister (0, 0), .q (.base (.complete 0))]).q.base.callbacks =
+    [(0, .single (.synth 100 .timeout))] := by decide
+
+/-- `C12_window_reply_leaks_not_fails` has realistic instances -/
+example : ∃ o, (o = Outcome.sendErr ∨ o = .timeoutErr) ∧
+    ((lstep codeLock C12_demo5 id (lstep codeLock C12_demo5 id (lrun codeLock C12_demo5 id linit (C12_demo5_sched.take 3))
+      (.q (.base (.deliver ⟨100, 2, 1, false⟩)))) (.unregister (0, 0))).q.base.call (0, 0)).pc = .finished o :=
+  let ⟨_, _, _, _, o, ho, h1, _⟩ := C12_window_reply_leaks_not_fails C12_demo5 (by decide) id (C12_demo5_sched.take 3) []
+    (0, 0) ⟨100, 2, 1, false⟩ (by decide) (by decide)
+  ⟨o, ho, h1⟩
+
+/-- What the `neverStuck` clause of Spec.C12 rejects: the scenario ends with the proof that
+    command 0 is wedged (and so lacks its callback). -/
+example : Spec C12_demo5 [0] [.send 0 2 false 0 0, .resp ⟨100, 2, 1, false⟩, .stuck 0] [] = false := by decide
+
+example : neverStuck [.send 0 2 false 0 0, .resp ⟨100, 2, 1, false⟩, .stuck 0] = false := by decide
+
+/-- … while the same scenario on the code is accepted: the send error, the reply parked. -/
+example : Spec C12_demo5 [0]
+    [.send 0 2 false 0 0, .resp ⟨100, 2, 1, false⟩, .done 0 (.single (.synth 100 .send))]
+    [(0, .single (.synth 100 .send))] = true := by decide
